@@ -274,7 +274,8 @@ static string DdText(const Scenario& sc, const string& dd) {
   return t;
 }
 
-static string RspContent(const Stmt& s) { return "rsp-e" + to_string(s.id) + "-v" + to_string(s.rspver); }
+// later versions are shorter: a response file written over a leftover one must not keep the old tail
+static string RspContent(const Stmt& s) { return "rsp-e" + to_string(s.id) + "-v" + to_string(s.rspver) + string(5 * std::max(0, 3 - s.rspver), 'x'); }
 static string RspPath(const Stmt& s) { return (s.badrspdir ? string("nodir/") : string("")) + s.outs[0] + ".rsp"; }
 
 static string RenderManifest(const Scenario& sc) {
